@@ -8,7 +8,11 @@ package eddsa
 //	X3 = A*F*((X1+Y1)*(X2+Y2)-C-D), Y3 = A*G*(D-a*C), Z3 = F*G
 //
 // which is complete on edwards25519 (a=-1 a square, d a non-square) and on
-// edwards448 (a=1, d=-39081 a non-square). Doubling uses the same formula.
+// edwards448 (a=1, d=-39081 a non-square), and the doubling formula of the
+// same paper
+//
+//	B = (X1+Y1)^2, C = X1^2, D = Y1^2, E = a*C, F = E+D, H = Z1^2, J = F-2H
+//	X3 = (B-C-D)*J, Y3 = F*(E-D), Z3 = F*J.
 // It exists only because the affine model costs two modular inversions per
 // addition; the refcheck units compare it with ecurve.ScalarMult / BaseMult
 // on the scalar alphabet before any verdict is trusted.
@@ -61,6 +65,24 @@ func (c *projCurve) add(P, Q proj) proj {
 	}
 }
 
+func (c *projCurve) dbl(P proj) proj {
+	xy := new(big.Int).Add(P.X, P.Y)
+	B := c.mul(xy, xy)
+	C := c.mul(P.X, P.X)
+	D := c.mul(P.Y, P.Y)
+	E := c.mul(c.a, C)
+	F := new(big.Int).Add(E, D)
+	H := c.mul(P.Z, P.Z)
+	J := new(big.Int).Sub(F, new(big.Int).Lsh(H, 1))
+	t := new(big.Int).Sub(B, C)
+	t.Sub(t, D)
+	return proj{
+		X: c.mul(t, J),
+		Y: c.mul(F, new(big.Int).Sub(E, D)),
+		Z: c.mul(F, J),
+	}
+}
+
 func toProj(P ecurve.Point) proj { return proj{P.X.A, P.Y.A, big.NewInt(1)} }
 
 func (v *Variant) toAffine(P proj) ecurve.Point {
@@ -78,7 +100,7 @@ func (v *Variant) scalarMult(k *big.Int, P ecurve.Point) ecurve.Point {
 	R := proj{big.NewInt(0), big.NewInt(1), big.NewInt(1)}
 	Q := toProj(P)
 	for i := k.BitLen() - 1; i >= 0; i-- {
-		R = c.add(R, R)
+		R = c.dbl(R)
 		if k.Bit(i) == 1 {
 			R = c.add(R, Q)
 		}
@@ -97,7 +119,7 @@ func (v *Variant) baseMult(k *big.Int) ecurve.Point {
 		c.pow2G = make([]proj, n)
 		c.pow2G[0] = toProj(v.C.G)
 		for i := 1; i < n; i++ {
-			c.pow2G[i] = c.add(c.pow2G[i-1], c.pow2G[i-1])
+			c.pow2G[i] = c.dbl(c.pow2G[i-1])
 		}
 	})
 	if k.BitLen() > len(c.pow2G) {
